@@ -31,8 +31,12 @@ What is proved here, about the model `Rotation.rotq` of `rotate_with_quaternion`
   statements for ALL unit vectors (`two_chart_rotation_total`).  This is a theorem about the model of the
   repair only: the repair cannot be committed to /repo (8 baseline tests encode the defect, DESIGN §6-F2).
 * pair vectors are translation invariant and rotation covariant; the rotated `(pp|pp)` element of
-  `w_withquaternion` depends on the frame only through its first row; pairwise-assembled forces have zero
-  net force, central pair forces zero net torque.
+  `w_withquaternion` — and in fact every one of the 100 entries of the rotated block of a heavy–heavy pair
+  (`w_rot_depends_on_row0_only`) — depends on the frame only through its first row; consequently the repair
+  changes nothing outside the cone (`two_chart_same_w_on_regular_chart`); pairwise-assembled forces have
+  zero net force, central pair forces zero net torque.
+* not proved here (staged, DESIGN §5-C02 "Partial"): the covariance `w(Rv) = (R⊗R) w(v) (R⊗R)ᵀ` of the block
+  under a rotation of `v`, the overlap blocks, PM6 d orbitals.
 -/
 
 namespace C02
@@ -507,6 +511,20 @@ theorem w_rot_depends_on_row0_only (ri : Nat → ℝ) (hax : ri 21 = (1/2) * (ri
     rcases c with _ | _ | c <;> simp only [M3.row, M3.get] <;> assumption
   simp only [hr0]
   exact w_elem_frame_independent ri _ _ _ _ _ hax (projD_eq_of_cols R R' hc hc' h0) kk ll mm nn
+
+/-- non-vacuity: two different orthonormal frames with the same first row, and integrals obeying the axial
+    identity -/
+example : ∃ (R R' : M3 ℝ) (ri : Nat → ℝ), ColsOrthonormal R ∧ ColsOrthonormal R' ∧
+    (R.r00 = R'.r00 ∧ R.r01 = R'.r01 ∧ R.r02 = R'.r02) ∧ R.r11 ≠ R'.r11 ∧
+    ri 21 = (1/2) * (ri 18 - ri 20) ∧ ri 18 ≠ ri 20 := by
+  refine ⟨⟨1, 0, 0, 0, 1, 0, 0, 0, 1⟩, ⟨1, 0, 0, 0, 3/5, 4/5, 0, -4/5, 3/5⟩,
+    fun i => if i = 18 then 3 else if i = 21 then 1 else if i = 20 then 1 else 0, ?_, ?_, ?_, ?_, ?_, ?_⟩
+  · simp only [ColsOrthonormal]; norm_num
+  · simp only [ColsOrthonormal]; norm_num
+  · simp
+  · norm_num
+  · norm_num
+  · norm_num
 
 /-- Corollary: outside the cone the repaired two-chart frame produces exactly the same integrals as the frame
     of the code (the repair only changes results inside the F2 cone). -/
